@@ -763,6 +763,73 @@ func c15FailingHosts() vh.Unit {
 	}}
 }
 
+// hostile requests arriving at the same moment on different connections (garbage signatures in the
+// name of different nodes, mixed with a valid request): every interleaving of their handling - the
+// bookkeeping a pool does about rejected requests is shared state like any other
+func c15ConcurrentHostile(bound int) vh.Unit {
+	name := "concurrent-hostile-requests"
+	cast := vh.StdCast()
+	var replies [3]*jsonrpc2.Message
+	var alive bool
+	body := func() {
+		pw := vh.NewPoolWorld(vh.PoolConfig{Driver: vh.Memory})
+		for _, e := range []string{"conn H1", "conn C1", "conn C2"} {
+			vh.PoolEvent(pw, cast, e)
+		}
+		srv := &jsonrpc2.Server{}
+		if err := vh.RegisterProd(srv, pw); err != nil {
+			panic(err)
+		}
+		now := vsched.Now().UnixNano()
+		bad := func(endpoint string, id *vh.Ident, nonce int64) *jsonrpc2.Message {
+			c := vh.NewCall(endpoint, id, nonce, vh.DefaultParam(endpoint, cast.ByName["H1"].NodeID))
+			c.Sig = c.Sig[:10] + "AAAA" + c.Sig[14:] // garbage in the signature
+			m, err := vh.ParseMessage(vh.RequestText(c, int(nonce-now)))
+			if err != nil {
+				panic(err)
+			}
+			return m
+		}
+		good := vh.NewCall("vipnode_update", cast.ByName["H1"], now+3, vh.DefaultParam("vipnode_update", cast.ByName["C1"].NodeID))
+		goodMsg, _ := vh.ParseMessage(vh.RequestText(good, 3))
+		msgs := []*jsonrpc2.Message{bad("vipnode_update", cast.ByName["C1"], now+1), bad("vipnode_peer", cast.ByName["C2"], now+2), goodMsg}
+		var fns []func()
+		for i := range msgs {
+			i := i
+			fns = append(fns, func() { replies[i] = srv.Handle(vh.CtxWith(pw.Host(fmt.Sprint("conn", i)).Service()), msgs[i]) })
+		}
+		vh.Par([]string{"bad-update-C1", "bad-peer-C2", "good-update-H1"}, fns...)
+		alive = vh.Ping(srv)
+	}
+	return vh.Unit{Name: name, Run: func(u *vh.U) {
+		vh.RunDFS(u, vh.DFSSpec{
+			Name: name, Bound: bound,
+			Run:  vsched.Options{YieldFiles: []string{"service.go", "memory.go"}, Drain: true},
+			Body: body,
+			Obs: func(s *vsched.Sched) string {
+				return fmt.Sprint(replies[0] != nil && replies[0].Error != nil, replies[1] != nil && replies[1].Error != nil, replies[2] != nil && replies[2].Error == nil)
+			},
+			Check: func(s *vsched.Sched) (string, string) {
+				for i, want := range []string{"1", "2", "3"} {
+					if p := vh.ReplyProblem(want, replies[i]); p != "" {
+						return name + "/malformed-reply", fmt.Sprintf("request %d: %s", i+1, p)
+					}
+				}
+				if replies[0].Error == nil || replies[1].Error == nil {
+					return name + "/garbage-signature-accepted", vh.ShortJSON(replies[:2])
+				}
+				if replies[2].Error != nil {
+					return name + "/valid-request-refused", vh.ShortJSON(replies[2])
+				}
+				if !alive {
+					return name + "/pool-stopped-serving", "ping unanswered after the three requests"
+				}
+				return "", ""
+			},
+		})
+	}}
+}
+
 func init() {
 	vh.Register(&vh.Check{
 		ID: "C15", Level: "model_checking",
@@ -793,6 +860,7 @@ func init() {
 			for _, scen := range []string{"close-vs-rehost", "close-vs-rehost-same", "close-vs-peer", "close-vs-host-update"} {
 				us = append(us, c10SerialNamed("no-wedge", vh.Memory, scen, wb))
 			}
+			us = append(us, c15ConcurrentHostile(wb-1))
 			n := 4
 			if tier == "thorough" {
 				n = 12
